@@ -71,7 +71,8 @@ def build_v4(T=8, F=4, ants=('m000', 'm001'), cbid='1234567890', stream='sdp_l0'
              acts=((0, 'slew'), (2, 'track')), targets=((0, TARGET_A),), labels=((0, 'track'),),
              need_weights_power_scale=False, bls_ordering=None, lose=(), telstate_hook=None,
              open_kwargs=None, source_kwargs=None, tmp=None, event_offset=-0.9, extra_sensors=(),
-             sub_pool_resources=None, sub_product='c856M4k', cbf=None):
+             sub_pool_resources=None, sub_product='c856M4k', cbf=None, flag_streams=(), archived_override=None,
+             construct=True):
     """Returns V4 object with .d (VisibilityDataV4), .stored (dict of arrays), .telstate, .store, .tmp.
 
     cbf: None (a "lite" RDB without CBF attributes) or (cbf_int_time, n_accs, scale_factor_timestamp).
@@ -121,6 +122,21 @@ def build_v4(T=8, F=4, ants=('m000', 'm001'), cbid='1234567890', stream='sdp_l0'
         l1_s['src_streams'] = [stream]
         archived.append(l1_name)
         stored_l1 = l1_flags
+    extra_info = {}
+    for fsd in flag_streams:
+        # dict(name, flags=array, chunks=None, type='sdp.flags', src=[stream], archived=True)
+        nm = fsd['name']
+        f_prefix = ts.join(cbid, nm).replace('_', '-')
+        extra_info[nm] = {'flags': put_array(store, f_prefix, 'flags', fsd['flags'], fsd.get('chunks'))}
+        ts.view(ts.join(cbid, nm))['chunk_info'] = extra_info[nm]
+        f_s = ts.view(nm)
+        if fsd.get('type', 'sdp.flags') is not None:
+            f_s['stream_type'] = fsd.get('type', 'sdp.flags')
+        f_s['src_streams'] = list(fsd.get('src', [stream]))
+        if fsd.get('archived', True):
+            archived.append(nm)
+    if archived_override is not None:
+        archived = list(archived_override)
     ts['sdp_archived_streams'] = archived
     ts['sub_pool_resources'] = sub_pool_resources or ('cbf_1,sdp_1,' + ','.join(ants))
     ts['sub_product'] = sub_product
@@ -168,6 +184,8 @@ def build_v4(T=8, F=4, ants=('m000', 'm001'), cbid='1234567890', stream='sdp_l0'
     out.view, out.cbid, out.stream = view, cbid_, sn
     out.bls_ordering = bls_ordering
     out.chunk_info = chunk_info
+    if not construct:
+        return out
     out.source = TelstateDataSource(view, cbid_, sn, chunk_store=store, **(source_kwargs or {}))
     out.d = VisibilityDataV4(out.source, **(open_kwargs or {}))
     return out
